@@ -128,10 +128,10 @@ theorem free_exCross {b : Nat} {t1 t2 : TSeq} (h1 : t1.Free b) (h2 : t2.Free b) 
 theorem free_exUnion {b : Nat} {t1 t2 : TSeq} (h1 : t1.Free b) (h2 : t2.Free b) : (exUnion t1 t2).Free b := by
   unfold exUnion
   split
-  · apply Seq.free_union (Seq.free_dedup (Seq.free_keepFirstBytes 4 h1))
+  · apply Seq.free_union (Seq.free_dedup (Seq.free_keepFirstBytes _ h1))
     split
     · exact Seq.free_none b
-    · exact Seq.free_dedup (Seq.free_keepFirstBytes 4 h2)
+    · exact Seq.free_dedup (Seq.free_keepFirstBytes _ h2)
   · exact Seq.free_union h1 h2
 
 theorem free_singleton_empty (b : Nat) (p : Bool) : (TSeq.mk (Seq.singleton ⟨[], true⟩) p).Free b := by
